@@ -185,7 +185,7 @@ def g0 : Cfg := ⟨.lt, 0, 10, fun i => UInt8.ofNat i⟩
 
 /-- a backlog of buffer and file data, partly transmitted: the invariant's three parts are all non-empty -/
 example :
-    let s := run g0 init [.register, .write [1, 2, 3, 4] (.wrote 1), .sendfile 2 3 [], .writev [[5], [], [6, 7]] .eagain,
+    let s := run g0 init [.register, .write [1, 2, 3, 4] [.wrote 1], .sendfile 2 3 [], .writev [[5], [], [6, 7]] [.eagain],
       .evTake true false false [.wrote 2, .eagain], .evEnd]
     s.closed = false ∧ s.wire = [1, 2, 3] ∧ pending g0 s.wl = [4, 2, 3, 4, 5, 6, 7] ∧
     s.accepted = [1, 2, 3, 4, 2, 3, 4, 5, 6, 7] := by decide
